@@ -3,6 +3,7 @@ From Coq Require Import ZArith List Bool Reals Sorted. Import ListNotations.
 From PV Require Import Num NumR model.Geom proofs.LatticeFacts proofs.SiteFacts.
 From PV Require Import gen.GenFns proofs.SourceFacts.
 From PV Require Import model.Iter proofs.SearchFacts.
+From PV Require Import gen.GenFns proofs.SourceFacts proofs.SearchFacts.
 
 Theorem C14_to_cartesian_linear :
   forall c : cellR, to_cartesian NumR c (1%R, 0%R) = vecA c /\ to_cartesian NumR c (0%R, 1%R) =
@@ -87,4 +88,11 @@ Theorem C14_periodic_images_is_source :
     k zero = periodic_images NN c t k zero.
 Proof. exact periodic_images_is_source. Qed.
 Print Assumptions C14_periodic_images_is_source.
+
+
+Theorem S_cell_sides_are_source :
+  forall (NN : Num) (c : cell NN), gen_cell_a NN c = cell_a NN c /\ gen_cell_b NN c = cell_b NN
+    c.
+Proof. exact cell_sides_are_source. Qed.
+Print Assumptions S_cell_sides_are_source.
 
